@@ -367,6 +367,9 @@ pub enum Profile {
     Light,
     /// Smallest scenarios: 2..=3 threads x one `L`/`V` op (saturates the seam interleavings).
     Tiny,
+    /// Coverage queries spanning >= 3 depths (cone radius of 3..12 cells) racing with each other
+    /// and with first users of the intermediate depths; half of the other threads arrive late.
+    Cover,
 }
 
 pub fn n_hash(d: u8) -> u64 {
@@ -462,12 +465,60 @@ pub const FAULT_STALL: u8 = 1;
 pub const FAULT_CRASH: u8 = 2;
 pub const FAULT_LATE: u8 = 4;
 
+/// Coverage-centred scenarios (see [`Profile::Cover`]).
+fn generate_cover(seed: u64) -> Scenario {
+    let mut rng = Rng::new(seed);
+    let n_threads = rng.range(2, 3) as usize;
+    let d = rng.range(3, 29) as u8;
+    let (lon, lat) = gen_pos(&mut rng);
+    let lat = lat.max(-1.4).min(1.4);
+    let cs = cell_size(d);
+    let mut threads = Vec::with_capacity(n_threads);
+    for ti in 0..n_threads {
+        let n_ops = rng.range(1, 2) as usize;
+        let mut ops = Vec::with_capacity(n_ops);
+        for _ in 0..n_ops {
+            // nearby positions so that the queries share their coarse cells
+            let lo = lon + rng.uniform(-2.0, 2.0) * cs;
+            let la = (lat + rng.uniform(-2.0, 2.0) * cs).max(-1.5).min(1.5);
+            let f = rng.uniform(3.0, 12.0);
+            let op = match rng.below(8) {
+                0..=3 => Op::K { d, lon: lo, lat: la, r: (cs * f).min(1.5) },
+                4 => {
+                    let dd = if d >= 28 { 0 } else { rng.range(1, 2) as u8 };
+                    Op::Kc { d: d.min(29 - dd), dd, lon: lo, lat: la, r: (cs * f).min(1.5) }
+                }
+                5 => {
+                    let a = (cs * f).min(1.0);
+                    Op::E { d, lon: lo, lat: la, a, b: a * rng.uniform(0.4, 1.0), pa: rng.uniform(0.0, std::f64::consts::PI) }
+                }
+                // a first user of one of the intermediate depths the queries go through
+                6 => Op::L { d: d.saturating_sub(rng.range(1, 3) as u8) },
+                _ => Op::V { d: d.saturating_sub(rng.range(0, 3) as u8).max(1), lon: lo, lat: la, r: None },
+            };
+            ops.push(op);
+        }
+        let late = ti > 0 && rng.chance(1, 2);
+        threads.push(ThreadSpec { start: if late { Start::Late } else { Start::Line }, ops });
+    }
+    let mut faults = Vec::new();
+    if rng.chance(1, 2) {
+        let ti = rng.below(n_threads as u64) as u8;
+        faults.push(Fault::Stall { thread: ti, at_event: rng.range(1, 12) as u32, steps: rng.range(1, 30) as u32 });
+    }
+    Scenario { threads, faults }
+}
+
 pub fn generate(seed: u64, profile: Profile) -> Scenario {
+    if profile == Profile::Cover {
+        return generate_cover(seed);
+    }
     let mut rng = Rng::new(seed);
     let (max_threads, max_ops, light) = match profile {
         Profile::Full => (6u64, 4u64, false),
         Profile::Light => (4, 2, true),
         Profile::Tiny => (3, 1, true),
+        Profile::Cover => unreachable!(),
     };
     // thread count: biased to small
     let n_threads = match rng.below(10) {
@@ -574,7 +625,7 @@ mod tests {
     use super::*;
     #[test]
     fn roundtrip() {
-        for p in [Profile::Full, Profile::Light, Profile::Tiny] {
+        for p in [Profile::Full, Profile::Light, Profile::Tiny, Profile::Cover] {
             for s in 0..2000u64 {
                 let sc = generate(derive_seed(1, 2, s), p);
                 let txt = encode(&sc);
